@@ -15,6 +15,7 @@ type Entry struct {
 	Iface    string     // interface name
 	Stub     bool
 	Resets   bool
+	Fields   map[string][]string // method -> expected call-record field names ("" where the interface writes no name)
 }
 
 var registry = map[string]*Entry{}
@@ -252,7 +253,13 @@ func (m *M) rawCall(method string, fr *frame) (r CallResult) {
 	mt := mv.Type()
 	args := make([]reflect.Value, mt.NumIn())
 	for i := range args {
-		args[i] = m.G.Value(mt.In(i), 0)
+		// every fifth call passes the zero value of every parameter (nil context, nil
+		// pointer, nil func, ""): legal arguments that a mock records and hands on like any other
+		if m.nextID%5 == 0 && !(mt.IsVariadic() && i == len(args)-1) {
+			args[i] = reflect.Zero(mt.In(i))
+		} else {
+			args[i] = m.G.Value(mt.In(i), 0)
+		}
 	}
 	m.argFP[r.ID] = fpList(args)
 	before := len(m.events)
